@@ -339,6 +339,14 @@ func (w *World) contractModKeys(c *Contract, ms *ModSet) {
 		case strings.HasPrefix(m, "global "):
 			ms.keys["G|"+pkg.Name()+"."+strings.TrimSpace(m[7:])] = true
 			continue
+		case strings.HasPrefix(m, "elemtype "):
+			if tv, err := types.Eval(w.fset, pkg, token.NoPos, strings.TrimSpace(m[9:])); err == nil && tv.IsType() {
+				ms.keys[keyElem(tv.Type)] = true
+			} else {
+				ms.all = true
+				ms.why = "contract " + c.Func + ": cannot type " + m
+			}
+			continue
 		}
 		i := strings.LastIndex(m, ".")
 		if i < 0 {
